@@ -900,6 +900,9 @@ class Constraints:
 
     @classmethod
     def multiple_of(cls, value, of: int):
+        if isinstance(value, Decimal) and isinstance(of, float):
+            # Decimal % float is a TypeError: a float divisor is read as the decimal it spells
+            of = Decimal(str(of))
         mod = value % of
         if mod:
             raise ValueError
@@ -907,6 +910,8 @@ class Constraints:
 
     @classmethod
     def lax_multiple_of(cls, value, of: int):
+        if isinstance(value, Decimal) and isinstance(of, float):
+            of = Decimal(str(of))
         mod = value % of
         if mod:
             return (value // of) * of
